@@ -66,6 +66,24 @@ Theorem C05_live_version_tiles_exact : forall rz v rows,
 Proof. exact live_version_tiles_exact. Qed.
 Print Assumptions C05_live_version_tiles_exact.
 
+(* KNOWN FINDING (C01/C05, class resurrect-duplicate-seq).  The hypothesis wf_input above asks
+   the stored rows of the version to have strictly increasing seqs.  On a node that merged a
+   foreign record which resurrects a row it holds at a lower causal length, cr-sqlite stamps the
+   sentinel it creates with the db_version and seq of that record: the node then stores two rows
+   under one (site_id, db_version, seq), the hypothesis is false, and the chunker -- which stops
+   at the first row whose seq is last_seq -- does not serve the second one.  Witness (the shape
+   found on the real agents: sentinel then data record, both at seq 0 = last_seq): *)
+Theorem C05_duplicate_seq_row_is_not_served_refuted :
+  exists rz v rows,
+    rows <> [] /\
+    wf_input (map (fun r => mkChg (fst r) rz (snd r)) rows) 0 (maxseq rows) = false /\
+    concat (map msg_rows (send_chunks rz v (maxseq rows) rows 0 (maxseq rows))) = removelast rows.
+Proof.
+  exists 75, 3, [(0, 1); (0, 2)].
+  split; [discriminate|]. split; vm_compute; reflexivity.
+Qed.
+Print Assumptions C05_duplicate_seq_row_is_not_served_refuted.
+
 Theorem C05_full_need_answers_live_version : forall sv s e v rows m,
   vget v (sv_live sv) = Some rows -> s <= v <= e ->
   In m (send_chunks (sv_rowsize sv) v (maxseq rows) rows 0 (maxseq rows)) ->
